@@ -174,6 +174,14 @@ def rules_from_acl(rng: random.Random, acl: list[dict], depth: int = 0) -> list[
     return out
 
 
+def margin(text: str, pad: int) -> str:
+    """A generator's acl() is a literal in its source, indented like the code around it: each generator's text
+    gets its own left margin (the merged ACL must not depend on it: _combine_acl_text dedents per generator)."""
+    if not pad:
+        return text
+    return "\n".join(" " * pad + l if l.strip() else l for l in text.split("\n")) + "\n"
+
+
 def gen_case(rng: random.Random, k: int) -> dict:
     v = rng.choice(P.BLOCK_VENDORS)
     rev = P.VENDORS[v][0]
@@ -229,13 +237,18 @@ def gen_case(rng: random.Random, k: int) -> dict:
     return {"vendor": v, "rules": rules, "orules": orules, "old": old, "new": new, "stream": stream,
             "patching": P.rules_text(rules), "ordering": P.ordering_text(orules),
             "acls": [{"name": name, "text": A.acl_text(p)} for name, p in parts],
+            "margins": [0 if name is None else rng.choice([0, 0, 0, 2, 4, 8]) for name, _ in parts],
             "acl_items": items, "n_gen": n_gen}
 
 
 # ------------------------------------------------------------------ Coq terms
 
 def payload(c: dict) -> dict:
-    return {k: c[k] for k in ("vendor", "patching", "ordering", "old", "new", "acls")}
+    d = {k: c[k] for k in ("vendor", "patching", "ordering", "old", "new", "acls")}
+    pads = c.get("margins") or []
+    d["acls"] = [dict(a, text=margin(a["text"], pads[j] if j < len(pads) and a.get("name") is not None else 0))
+                 for j, a in enumerate(c["acls"])]
+    return d
 
 
 def coq_case(c: dict, o: dict) -> str:
